@@ -362,8 +362,8 @@ def run(F, R, tier):
         loops = [n for n in walk(f["body"]) if n.get("k") in ("WhileStmt", "ForStmt", "CXXForRangeStmt")]
         finds = [n for n in walk(f["body"]) if is_call(n) and (n.get("fn") or "") == "SLHAea::Coll::find"]
         inst = "%s(%s...) iterates all blocks of the name via SLHAea::Coll::find" % (f["name"].split("::")[-1], "block_name")
-        ok = len(loops) == 1 and loops[0]["k"] == "WhileStmt" and len(finds) >= 2 and \
-            any(F.calls and St2 for St2 in [True])
+        ok = len(loops) == 1 and len(finds) >= 2
+        # the find that advances to the next match sits in the loop (body, or the increment of a for statement)
         in_loop = [x for x in finds if any(y is x for y in walk(loops[0]))] if loops else []
         R.check("K4", bool(ok and in_loop), inst, F.loc(f),
                 "blocks are not looked up through the case-insensitive SLHAea find in a loop over all matches",
